@@ -4,7 +4,9 @@ from lib import hexs
 MODULE = "DtailModel.Props.C05"
 # translated packages (tie G) this property's theorems rest on
 GEN_UNITS = ("Mapr",)
-GROUPS = ["C05", "C11", "GEN", "C15"]
+GROUPS = ["C05", "C11", "GEN", "C15", "C06"]
+# scripts with real waits: a disagreement counts only if it reproduces when re-run alone (flake policy, DESIGN 2.3)
+TIMED_OPS = ("c06.fifo", "c06.interim")
 LOGGER = "none"
 JOBS = 16
 BUDGET = {"quick": 1500, "thorough": 40000}
@@ -166,6 +168,26 @@ def gen(rng, budget, tier):
             yield c + f" wire{sub.choice([1, 7, 16, 33, 64, 4096])}"
             n += 1
             if n >= (150 if tier == "quick" else 5000):
+                break
+    # seeded round 6: the server-side aggregator with interim serialisations (the 'M' scripts of the C06 check): every line
+    # of every file must be in what the server hands out, whatever is in flight when the last file ends
+    from props import c06 as _c06
+    sub2 = random.Random(rng.getrandbits(32))
+    yield "c06.interim 300 5"
+    yield "c06.interim 40 0"
+    k = 0
+    yield "c06.fifo 4 M,C0,C1,C2,C3,P0,P3,P2,P3,P0,P2,P1,P1,P0,P2,P0,P0,P2,X2,P3,P0,P1,X3,P1,X0,P1,X1"
+    yield "c06.fifo 3 M,C0,C1,C2,P0,P1,P2,P0,P1,P2,P0,P1,P2,P0,P1,P2,X0,P1,P2,X1,P2,P2,X2"
+    for c in _c06._gen_c06(sub2, 800, tier):
+        ops = c.split(" ")[-1].split(",")
+        # only scripts in which every file's command arrives before any file ends: the others run into the recorded C06
+        # finding (a file that registers after the aggregator finished), which is the C06 check's business
+        firstX = min([i for i, o in enumerate(ops) if o.startswith("X")] or [len(ops)])
+        lastC = max([i for i, o in enumerate(ops) if o.startswith("C")] or [0])
+        if c.startswith("c06.fifo") and lastC < firstX:
+            yield c
+            k += 1
+            if k >= (40 if tier == "quick" else 600):
                 break
 
 
